@@ -338,4 +338,316 @@ def rule_f(ctx):
                 'the collector loses an element or the completion')
 
 
-RULES = [('C20.a', rule_a), ('C20.b', c06a), ('C20.c', c06b), ('C20.d', rule_d), ('C20.e', rule_e), ('C20.f', rule_f)]
+def rule_h(ctx):
+    """The handler adapters' channel: what the application returned is what the core gets - publisher from its
+    observable, subscriber (with its limit) from its observer exactly when it gave one."""
+    rep = ctx.report
+    for pkg in PKGS:
+        c = ctx.repo.cls(HANDLER_ADAPTERS[pkg])
+        f = c.methods['request_channel']
+        ok = True
+        why = ''
+        seen = set()
+        for p in ctx.paths(f, c, inline_depth=0):
+            if p.outcome != 'return':
+                continue
+            dele = [e for e in p.events if e.kind == 'call' and e.data.get('name') == 'request_channel' and
+                    e.data.get('awaited')]
+            if len(dele) != 1:
+                ok, why = False, 'the delegate is not asked exactly once'
+                continue
+            ch = ('awaited', strip_epoch(dele[0].data['value'].term))
+
+            def of(t, attr):
+                t = strip_epoch(t)
+                return t[0] == 'attr' and t[2] == attr and strip_epoch(t[1]) in (ch, ch[1])
+            pubs = [e for e in p.events if e.kind == 'call' and e.data.get('name') == 'observable_to_publisher']
+            none = [x for x in p.events if x.kind == 'cond' and x.data['key'][0] == 'isnone' and
+                    of(x.data['key'][1], 'observer')]
+            news = [e for e in p.events if e.kind == 'new' and e.data['cls'].name == 'RxSubscriberFromObserver']
+            rv = strip_epoch(p.value.term)
+            if len(pubs) != 1 or not of(pubs[0].data['args'][0].term, 'observable'):
+                ok, why = False, 'the publisher is not built from the observable the application returned'
+                continue
+            if not none:
+                ok, why = False, 'the observer the application returned is not looked at'
+                continue
+            has = none[-1].data['value'] is False
+            seen.add(has)
+            if has:
+                if len(news) != 1 or not of(news[0].data['args'][0].term, 'observer') or \
+                        len(news[0].data['args']) < 2 or not of(news[0].data['args'][1].term, 'limit_rate'):
+                    ok, why = False, 'with an observer, the subscriber is not RxSubscriberFromObserver(observer, limit_rate)'
+                    continue
+                want_sub = strip_epoch(news[0].data['value'].term)
+            else:
+                if news:
+                    ok, why = False, 'without an observer a subscriber is built'
+                    continue
+                want_sub = ('const', None)
+            if not (rv[0] == 'tuple' and len(rv[1]) == 2 and
+                    strip_epoch(rv[1][0]) == strip_epoch(pubs[0].data['value'].term) and
+                    strip_epoch(rv[1][1]) == want_sub):
+                ok, why = False, 'what is returned is not (publisher, subscriber)'
+        if ok and seen != {True, False}:
+            ok, why = False, 'no path for a channel %s observer' % ('with' if True not in seen else 'without')
+        rep.add('C20.e', '%s handler adapter request_channel / observable -> publisher, observer -> subscriber' % pkg,
+                f, ok, why or '(observable_to_publisher(channel.observable), RxSubscriberFromObserver(channel.observer, '
+                              'channel.limit_rate) or None)')
+        # the event queue between the observable and the feeder
+        mod = 'rsocket.%s.back_pressure_publisher' % pkg
+        g = ctx.repo.module(mod).functions['observable_to_async_event_generator'][-1]
+        ok = True
+        why = ''
+        n_y = n_stop = 0
+        marker = None
+        for n_ in walk_local(g.node):
+            if isinstance(n_, ast.Assign) and isinstance(n_.value, ast.Call) and ast.unparse(n_.value) == 'object()':
+                marker = n_.targets[0].id
+        for p in ctx.paths(g, None, inline_depth=0):
+            gets = [e for e in p.events if e.kind == 'call' and e.data.get('name') == 'get' and e.data.get('awaited')]
+            ys = [e for e in p.events if e.kind == 'yield']
+            for gi, ge in enumerate(gets):
+                hi = gets[gi + 1].seq if gi + 1 < len(gets) else 10 ** 9
+                v = ('awaited', strip_epoch(ge.data['value'].term))
+                conds = [x for x in p.events if x.kind == 'cond' and ge.seq < x.seq < hi and x.data['key'][0] == 'is']
+                mine = [y for y in ys if ge.seq < y.seq < hi]
+                if not conds:
+                    if p.outcome != 'cut' or mine:
+                        ok, why = False, 'a dequeued notification is not compared with the completion marker'
+                    continue
+                if conds[0].data['value'] is True:
+                    n_stop += 1
+                    if mine or gi + 1 < len(gets) or p.outcome != 'return':
+                        ok, why = False, 'the generator goes on after the completion marker'
+                else:
+                    if mine:
+                        n_y += 1
+                        if len(mine) != 1 or strip_epoch(mine[0].data['value'].term) not in (v, v[1]):
+                            ok, why = False, 'what is yielded is not the dequeued notification'
+                    elif gi + 1 < len(gets) or p.outcome == 'return':
+                        ok, why = False, 'a dequeued notification is dropped'
+        subs = [n_ for n_ in walk_local(g.node) if isinstance(n_, ast.Call) and isinstance(n_.func, ast.Attribute) and
+                n_.func.attr == 'subscribe' and 'materialize' in ast.unparse(n_.func.value)]
+        wired = False
+        if len(subs) == 1 and marker:
+            kw = {k.arg: k.value for k in subs[0].keywords}
+            on = kw.get('on_next')
+            oc = kw.get('on_completed')
+            put_ev = False
+            if isinstance(on, ast.Name) and on.id in g.children:
+                ch = g.children[on.id]
+                put_ev = any(isinstance(x, ast.Call) and isinstance(x.func, ast.Attribute) and
+                             x.func.attr in ('put_nowait', 'put') and len(x.args) == 1 and
+                             isinstance(x.args[0], ast.Name) and x.args[0].id == ch.params()[0]
+                             for x in ast.walk(ch.node))
+            elif isinstance(on, ast.Lambda):
+                put_ev = 'put_nowait(%s)' % on.args.args[0].arg in ast.unparse(on.body)
+            put_mk = oc is not None and ('put_nowait(%s)' % marker) in ast.unparse(oc)
+            wired = put_ev and put_mk
+        if not wired:
+            ok, why = False, 'the materialized observable is not subscribed with "queue every notification, then the ' \
+                             'completion marker"'
+        rep.add('C20.g', '%s observable_to_async_event_generator / notifications queued and yielded in order' % pkg, g,
+                ok and n_y > 0 and n_stop > 0, why or 'every notification queued, every dequeued one yielded, ends on the '
+                                                      'marker')
+
+
+def rule_g(ctx):
+    """The observable -> publisher feeders hand every notification on, once, as the matching signal: OnNext ->
+    on_next(value), OnError -> on_error(exception) and stop, OnCompleted -> on_completed() and stop; a value of the plain
+    async-generator feeder -> on_next(value), StopAsyncIteration -> on_completed(), another exception -> on_error; the
+    credit published on the feedback subject reaches the feeder's queue; cancellation of the subject cancels the feeder;
+    the publisher wrapper subscribes the subscriber, forwards request(n) and cancel() to the feedback subject."""
+    rep = ctx.report
+    for pkg in PKGS:
+        mod = 'rsocket.%s.back_pressure_publisher' % pkg
+        m = ctx.repo.module(mod)
+        # ---- event feeder
+        f = ctx.repo.func(mod + ':from_async_event_iterator.<locals>.on_subscribe.<locals>._aio_next')
+        ok = True
+        why = ''
+        seen = set()
+        for p in ctx.paths(f, None, inline_depth=0):
+            takes = [e for e in p.events if e.kind == 'call' and e.data.get('name') == '__anext__']
+            for ti, t in enumerate(takes):
+                ev = ('awaited', strip_epoch(t.data['value'].term))
+                hi = takes[ti + 1].seq if ti + 1 < len(takes) else 10 ** 9
+                kinds = {}
+                for c in p.events:
+                    if c.kind == 'cond' and t.seq < c.seq < hi and c.data['key'][0] == 'isinstance' and \
+                            strip_epoch(c.data['key'][1]) in (ev, ev[1]):
+                        for nm in c.data['key'][2]:
+                            kinds[nm.split(':')[-1].split('.')[-1]] = c.data['value']
+                sig = [e for e in p.events if e.kind == 'call' and t.seq < e.seq < hi and
+                       e.data.get('name') in ('on_next', 'on_error', 'on_completed')]
+                which = [k for k, v in kinds.items() if v is True]
+                complete = ti + 1 < len(takes) or p.outcome == 'return' or any(
+                    e.kind == 'loop' and e.data.get('phase') == 'back' and t.seq < e.seq < hi for e in p.events)
+                if not complete:
+                    continue
+                if not which:
+                    if sig:
+                        ok, why = False, 'a notification of unknown kind produces a signal'
+                    continue
+                k = which[0]
+                seen.add(k)
+                want = {'OnNext': ('on_next', 'value', False), 'OnError': ('on_error', 'exception', True),
+                        'OnCompleted': ('on_completed', None, True)}.get(k)
+                if want is None:
+                    continue
+                name, attr, stops = want
+                if [e.data['name'] for e in sig] != [name]:
+                    ok, why = False, 'an %s notification produces %s' % (k, [e.data['name'] for e in sig] or 'nothing')
+                    continue
+                if attr is not None:
+                    a = strip_epoch(sig[0].data['args'][0].term) if sig[0].data.get('args') else None
+                    if not (a and a[0] == 'attr' and a[2] == attr and strip_epoch(a[1]) in (ev, ev[1])):
+                        ok, why = False, 'the %s signal does not carry the notification\'s %s' % (name, attr)
+                if stops and (ti + 1 < len(takes) or p.outcome != 'return'):
+                    ok, why = False, 'the feeder goes on after a terminal notification'
+                if not stops and p.outcome == 'return' and ti + 1 == len(takes):
+                    ok, why = False, 'the feeder ends after an OnNext notification'
+        if ok and seen != {'OnNext', 'OnError', 'OnCompleted'}:
+            ok, why = False, 'no path handles %s' % sorted({'OnNext', 'OnError', 'OnCompleted'} - seen)
+        rep.add('C20.g', '%s from_async_event_iterator / each notification becomes its signal' % pkg, f, ok,
+                why or 'OnNext -> on_next(value); OnError -> on_error(exception), stop; OnCompleted -> on_completed(), '
+                       'stop')
+        # ---- plain async-generator feeder
+        g = ctx.repo.func(mod + ':observable_from_async_generator.<locals>.on_subscribe.<locals>._aio_next')
+        ok = True
+        why = ''
+        n_next = 0
+        for p in ctx.paths(g, None, inline_depth=0):
+            takes = [e for e in p.events if e.kind == 'call' and e.data.get('name') == '__anext__']
+            for ti, t in enumerate(takes):
+                hi = takes[ti + 1].seq if ti + 1 < len(takes) else 10 ** 9
+                sig = [e for e in p.events if e.kind == 'call' and t.seq < e.seq < hi and
+                       e.data.get('name') in ('on_next', 'on_error', 'on_completed')]
+                complete = ti + 1 < len(takes) or p.outcome == 'return' or any(
+                    e.kind == 'loop' and e.data.get('phase') == 'back' and t.seq < e.seq < hi for e in p.events)
+                if not complete:
+                    continue
+                ev = ('awaited', strip_epoch(t.data['value'].term))
+                if [e.data['name'] for e in sig] != ['on_next'] or \
+                        strip_epoch(sig[0].data['args'][0].term) not in (ev, ev[1]):
+                    ok, why = False, 'a value taken from the generator is not handed to on_next once'
+                else:
+                    n_next += 1
+        handlers = {}
+        for t in walk_local(g.node):
+            if isinstance(t, ast.Try) and any(isinstance(x, ast.Await) and '__anext__' in ast.unparse(x)
+                                              for b in t.body for x in ast.walk(b)):
+                for h in t.handlers:
+                    nm = ast.unparse(h.type).split('.')[-1] if h.type is not None else 'BaseException'
+                    calls = [c.func.attr for c in ast.walk(h) if isinstance(c, ast.Call) and
+                             isinstance(c.func, ast.Attribute) and c.func.attr in ('on_next', 'on_error',
+                                                                                   'on_completed')]
+                    ends = any(isinstance(x, (ast.Return, ast.Raise)) for x in h.body)
+                    handlers[nm] = (calls, ends)
+        if handlers.get('StopAsyncIteration') != (['on_completed'], True):
+            ok, why = False, 'the end of the generator is not turned into on_completed() and a stop'
+        if handlers.get('Exception') != (['on_error'], True):
+            ok, why = False, 'a failure of the generator is not turned into on_error() and a stop'
+        rep.add('C20.g', '%s observable_from_async_generator / values, end and failure become signals' % pkg, g,
+                ok and n_next > 0, why or 'value -> on_next; StopAsyncIteration -> on_completed, stop; Exception -> '
+                                          'on_error, stop')
+        # ---- wiring of credit and cancellation (both feeders)
+        for outer in ('from_async_event_iterator', 'observable_from_async_generator'):
+            o = ctx.repo.func(mod + ':%s.<locals>.on_subscribe' % outer)
+            outer_f = ctx.repo.func(mod + ':%s' % outer)
+            bp_name = outer_f.params()[1]
+            # the local names involved, taken from their roles (a rename must not matter)
+            aio = o.children.get('_aio_next') or [ch for ch in o.children.values() if ch.is_async][0]
+            q_name = None
+            for x in walk_local(aio.node):
+                if isinstance(x, ast.Await) and isinstance(x.value, ast.Call) and \
+                        isinstance(x.value.func, ast.Attribute) and x.value.func.attr == 'get' and \
+                        isinstance(x.value.func.value, ast.Name):
+                    q_name = x.value.func.value.id
+            s_name = None
+            for x in walk_local(o.node):
+                if isinstance(x, ast.Assign) and isinstance(x.targets[0], ast.Name) and \
+                        'create_task' in ast.unparse(x.value) and (aio.node.name + '()') in ast.unparse(x.value):
+                    s_name = x.targets[0].id
+            subs = [n for n in walk_local(o.node) if isinstance(n, ast.Call) and isinstance(n.func, ast.Attribute)
+                    and n.func.attr == 'subscribe' and isinstance(n.func.value, ast.Name) and
+                    n.func.value.id == bp_name]
+            ok = len(subs) == 1
+            why = 'the feeder does not subscribe to the feedback subject exactly once' if not ok else ''
+            if ok:
+                kw = {k.arg: k.value for k in subs[0].keywords}
+
+                def body_of(v):
+                    if isinstance(v, ast.Lambda):
+                        return [v.body], [a.arg for a in v.args.args]
+                    if isinstance(v, ast.Name) and v.id in o.children:
+                        ch = o.children[v.id]
+                        return ch.node.body, ch.params()
+                    return None, None
+                b, ps_ = body_of(kw.get('on_next'))
+                good = False
+                if b is not None and ps_:
+                    for x in b:
+                        for c in ast.walk(x):
+                            if isinstance(c, ast.Call) and isinstance(c.func, ast.Attribute) and \
+                                    c.func.attr in ('put_nowait', 'put') and q_name is not None and \
+                                    ast.unparse(c.func.value) == q_name and len(c.args) == 1 and isinstance(c.args[0], ast.Name) and \
+                                    c.args[0].id == ps_[0]:
+                                good = True
+                if not good:
+                    ok, why = False, 'credit published on the feedback subject is not put into the feeder\'s queue'
+                b, ps_ = body_of(kw.get('on_completed'))
+                good = False
+                if b is not None:
+                    for x in b:
+                        for c in ast.walk(x):
+                            if isinstance(c, ast.Call) and isinstance(c.func, ast.Attribute) and \
+                                    c.func.attr == 'cancel' and isinstance(c.func.value, ast.Name) and \
+                                    c.func.value.id == s_name:
+                                good = True
+                if not good:
+                    ok, why = False, 'completion of the feedback subject (cancel) does not cancel the feeder task'
+                spawned = [n for n in walk_local(o.node) if isinstance(n, ast.Assign) and
+                           isinstance(n.targets[0], ast.Name) and n.targets[0].id == s_name and
+                           'create_task' in ast.unparse(n.value)]
+                if len(spawned) != 1:
+                    ok, why = False, 'the feeder task is not started exactly once'
+            rep.add('C20.g', '%s %s / credit and cancellation wired to the feeder' % (pkg, outer), o, ok,
+                    why or 'backpressure.subscribe(on_next: queue n, on_completed: cancel the feeder); feeder started')
+        # ---- publisher wrapper
+        c = m.classes['InternalBackPressurePublisher'][-1]
+        sub = c.methods['subscribe']
+        ok = False
+        for p in ctx.paths(sub, c, inline_depth=3, no_inline={'_factory'}):
+            if p.outcome != 'return':
+                continue
+            onsub = [e for e in p.events if e.kind == 'call' and e.data.get('name') == 'on_subscribe']
+            adapters = [e for e in p.events if e.kind == 'new' and e.data['cls'].name == 'SubscriberAdapter']
+            subs = [e for e in p.events if e.kind == 'call' and e.data.get('name') == 'subscribe' and
+                    e.data.get('args') and adapters and
+                    strip_epoch(e.data['args'][0].term) == strip_epoch(adapters[0].data['value'].term)]
+            fb = [e for e in p.events if e.kind == 'store' and e.data['target'][0] == 'attr' and
+                  e.data['target'][2] == '_feedback']
+            fac = [e for e in p.events if e.kind == 'call' and e.data.get('name') == '_factory']
+            ok = len(onsub) == 1 and len(adapters) == 1 and len(subs) == 1 and len(fb) == 1 and len(fac) == 1 and \
+                strip_epoch(adapters[0].data['args'][0].term) == ('param', sub.qualname, 'subscriber') and \
+                strip_epoch(fac[0].data['args'][0].term) in (strip_epoch(fb[0].data['value'].term),
+                                                              ('attr', ('self',), '_feedback'))
+        rep.add('C20.g', '%s InternalBackPressurePublisher.subscribe / subscriber wired to the observable' % pkg, sub,
+                ok, 'on_subscribe; feedback subject; factory(feedback).subscribe(SubscriberAdapter(subscriber))' if ok
+                else 'the subscriber is not subscribed (through its adapter) to the observable built from the feedback '
+                     'subject')
+        can = c.methods['cancel']
+        ok = False
+        for p in ctx.paths(can, c, inline_depth=0):
+            calls = [e for e in p.events if e.kind == 'call' and e.data.get('name') == 'on_completed' and
+                     e.data.get('recv') is not None and strip_epoch(e.data['recv'].term) == ('attr', ('self',),
+                                                                                             '_feedback')]
+            ok = p.outcome == 'return' and len(calls) == 1
+        rep.add('C20.g', '%s InternalBackPressurePublisher.cancel / completes the feedback subject' % pkg, can, ok,
+                'self._feedback.on_completed()' if ok else 'cancel() does not complete the feedback subject: the feeder '
+                                                           'keeps producing')
+
+
+RULES = [('C20.a', rule_a), ('C20.b', c06a), ('C20.c', c06b), ('C20.d', rule_d), ('C20.e', rule_e), ('C20.f', rule_f), ('C20.g', rule_g), ('C20.e+C20.g', rule_h)]
